@@ -3,7 +3,7 @@
 From Coq Require Import NArith ZArith List Bool.
 From Coq.Strings Require Import Byte.
 From LOF Require Import Base.Bytes Model.Wire Model.Build Spec.Walk Proofs.WireP Proofs.BuildP Proofs.NormP Proofs.WalkP
-  Proofs.WalkAllP Proofs.WalkMsgP.
+  Proofs.WalkAllP Proofs.WalkMsgP Model.BuildSw Proofs.HelloBaseP Proofs.HelloP.
 Import ListNotations.
 Open Scope N_scope.
 
@@ -74,3 +74,13 @@ Definition C03_example_recipe : mrec :=
 Theorem C03_example_meets_hypothesis : msg_ok C03_example_recipe = true /\ msg_ok (MBundleAdd 1 2 3 C03_example_recipe) = true.
 Proof. exact c03_example_ok. Qed.
 Print Assumptions C03_example_meets_hypothesis.
+
+(* ---- hello with any list of version-bitmap elements ([hello_tree xid es]: the elements and
+   their bitmaps are exported fields, so a controller can build any such list): each element is
+   padded to 64 bits and its length field counts header and bitmaps (fix D46) ---- *)
+Theorem C03_hello_walk : forall xid es, bitmaps_ok es = true -> xid < 4294967296 ->
+  spec_decode (fst (marshal (hello_tree xid es))) = Some (snd (marshal (hello_tree xid es))).
+Proof. exact hello_walk. Qed.
+Print Assumptions C03_hello_walk.
+Theorem C03_hello_meets_hypothesis : bitmaps_ok [[18]; [1; 2]; []; [4294967295; 0; 7]] = true.
+Proof. exact hello_example_wf. Qed.
